@@ -376,3 +376,486 @@ Qed.
 
 Theorem steps_io : forall op s r s', io op s = (r, s') -> steps s s'.
 Proof. intros op. apply tracks_steps, tracks_io. Qed.
+
+(* ================================================================================== *)
+(* 3. write_all: the exact shape of its runs                                          *)
+(* ================================================================================== *)
+
+(* `wsteps h b ops outs chunks b'`: starting with buffer b, the writes `ops` answered by `outs`
+   (each accepting a positive number of bytes, or interrupted) handed over `chunks` and
+   leave b' to be written *)
+Inductive wsteps (h : bytes) : bytes -> list ev_op -> list ev_out -> list bytes -> bytes -> Prop :=
+| WS_nil b : wsteps h b [] [] [] b
+| WS_wrote b k ops outs chunks b' : b <> [] -> 0 < k ->
+    wsteps h (skipn (Z.to_nat k) b) ops outs chunks b' ->
+    wsteps h b (EWrite h b :: ops) (OWrote k :: outs) (firstn (Z.to_nat k) b :: chunks) b'
+| WS_intr b ops outs chunks b' : b <> [] -> wsteps h b ops outs chunks b' ->
+    wsteps h b (EWrite h b :: ops) (OWriteIntr :: outs) chunks b'.
+
+(* the answer that ends a write_all with an error *)
+Definition write_bad (o : ev_out) (r : res unit) : Prop :=
+  match o with
+  | OWrote k => k <= 0 /\ r = Err (EIo IoWriteZero)
+  | OWriteIntr => False
+  | OWriteFail e => r = Err (EIo e)
+  | _ => r = Err EOutOfScript
+  end.
+
+Inductive write_end (h : bytes) (fuel : nat) (s s' : st) (r : res unit)
+          (ops : list ev_op) (outs : list ev_out) (b' : bytes) : Prop :=
+| WE_done : r = Ok tt -> b' = [] -> seg s s' outs ops -> write_end h fuel s s' r ops outs b'
+| WE_bad o : b' <> [] -> write_bad o r -> seg s s' (outs ++ [o]) (ops ++ [EWrite h b']) ->
+    write_end h fuel s s' r ops outs b'
+| WE_dry : b' <> [] -> r = Err EOutOfScript -> script s' = [] -> seg s s' outs (ops ++ [EWrite h b']) ->
+    write_end h fuel s s' r ops outs b'
+| WE_fuel : b' <> [] -> r = Err EOutOfFuel -> fuel = length ops -> seg s s' outs ops ->
+    write_end h fuel s s' r ops outs b'.
+
+Lemma seg_io_one s o rest op :
+  script s = o :: rest -> seg s (st_with s rest (op :: trace s)) [o] [op].
+Proof. intros E. split; [exact E|reflexivity]. Qed.
+
+Lemma seg_cons s s1 s' o op outs ops :
+  seg s s1 [o] [op] -> seg s1 s' outs ops -> seg s s' (o :: outs) (op :: ops).
+Proof. intros H1 H2. exact (seg_trans _ _ _ _ _ _ _ H1 H2). Qed.
+
+Lemma write_end_cons h f s s1 s' r o op ops outs b' :
+  seg s s1 [o] [op] -> write_end h f s1 s' r ops outs b' -> write_end h (S f) s s' r (op :: ops) (o :: outs) b'.
+Proof.
+  intros H1 [Hr Hb H2|o' Hb Hbad H2|Hb Hr Hs H2|Hb Hr Hf H2].
+  - apply WE_done; [exact Hr|exact Hb|]. eapply seg_cons; eassumption.
+  - eapply WE_bad; [exact Hb|exact Hbad|]. cbn [app]. eapply seg_cons; eassumption.
+  - apply WE_dry; [exact Hb|exact Hr|exact Hs|]. cbn [app]. eapply seg_cons; eassumption.
+  - apply WE_fuel; [exact Hb|exact Hr|cbn [length]; congruence|]. eapply seg_cons; eassumption.
+Qed.
+
+Lemma same_but_io_st_with s sc tr : same_but_io s (st_with s sc tr).
+Proof. repeat split. Qed.
+
+Lemma write_all_run fuel h : forall buf s r s', write_all fuel h buf s = (r, s') ->
+  same_but_io s s' /\
+  exists ops outs chunks b', wsteps h buf ops outs chunks b' /\ write_end h fuel s s' r ops outs b'.
+Proof.
+  induction fuel as [|f IH]; intros buf s r s' H.
+  - destruct buf as [|b0 buf]; cbn [write_all] in H; inversion H; subst.
+    + split; [apply preorder_same_but_io|]. exists [], [], [], []. split; [constructor|].
+      apply WE_done; [reflexivity|reflexivity|apply seg_refl].
+    + split; [apply preorder_same_but_io|]. exists [], [], [], (b0 :: buf). split; [constructor|].
+      apply WE_fuel; [discriminate|reflexivity|reflexivity|apply seg_refl].
+  - destruct buf as [|b0 buf]; cbn [write_all] in H.
+    + inversion H; subst. split; [apply preorder_same_but_io|]. exists [], [], [], []. split; [constructor|].
+      apply WE_done; [reflexivity|reflexivity|apply seg_refl].
+    + set (b := b0 :: buf) in *. assert (Hne : b <> []) by discriminate.
+      unfold mbind at 1 in H. unfold io in H. destruct (script s) as [|o rest] eqn:E.
+      * inversion H; subst. split; [apply same_but_io_st_with|]. exists [], [], [], b. split; [constructor|].
+        apply WE_dry; [exact Hne|reflexivity|reflexivity|]. split; [exact E|reflexivity].
+      * pose proof (seg_io_one s o rest (EWrite h b) E) as Hseg.
+        set (s1 := st_with s rest (EWrite h b :: trace s)) in *.
+        assert (Hbad : forall r0, write_bad o r0 -> (r0, s1) = (r, s') ->
+                  same_but_io s s' /\ exists ops outs chunks b',
+                    wsteps h b ops outs chunks b' /\ write_end h (S f) s s' r ops outs b').
+        { intros r0 Hb Hq. inversion Hq; subst. split; [apply same_but_io_st_with|].
+          exists [], [], [], b. split; [constructor|]. eapply WE_bad; [exact Hne|exact Hb|exact Hseg]. }
+        destruct o as [ok|k| |e|bs| |e|].
+        -- apply (Hbad (Err EOutOfScript)); [exact eq_refl|exact H].
+        -- destruct (k <=? 0) eqn:Ek.
+           ++ apply (Hbad (Err (EIo IoWriteZero))); [split; [lia|exact eq_refl]|exact H].
+           ++ destruct (IH _ _ _ _ H) as [Hf (ops & outs & chunks & b' & Hw & He)].
+              split; [eapply (proj2 preorder_same_but_io); [apply same_but_io_st_with|exact Hf]|].
+              exists (EWrite h b :: ops), (OWrote k :: outs), (firstn (Z.to_nat k) b :: chunks), b'.
+              split; [apply WS_wrote; [exact Hne|lia|exact Hw]|]. eapply write_end_cons; eassumption.
+        -- destruct (IH _ _ _ _ H) as [Hf (ops & outs & chunks & b' & Hw & He)].
+           split; [eapply (proj2 preorder_same_but_io); [apply same_but_io_st_with|exact Hf]|].
+           exists (EWrite h b :: ops), (OWriteIntr :: outs), chunks, b'.
+           split; [apply WS_intr; [exact Hne|exact Hw]|]. eapply write_end_cons; eassumption.
+        -- apply (Hbad (Err (EIo e))); [exact eq_refl|exact H].
+        -- apply (Hbad (Err EOutOfScript)); [exact eq_refl|exact H].
+        -- apply (Hbad (Err EOutOfScript)); [exact eq_refl|exact H].
+        -- apply (Hbad (Err EOutOfScript)); [exact eq_refl|exact H].
+        -- apply (Hbad (Err EOutOfScript)); [exact eq_refl|exact H].
+Qed.
+
+Lemma wsteps_length h b ops outs chunks b' : wsteps h b ops outs chunks b' -> length ops = length outs.
+Proof. induction 1; cbn [length]; congruence. Qed.
+
+(* the chunks handed over, followed by what is left, are the buffer *)
+Lemma wsteps_concat h b ops outs chunks b' : wsteps h b ops outs chunks b' -> b = concat chunks ++ b'.
+Proof.
+  induction 1 as [b|b k ops outs chunks b' Hne Hk Hw IH|b ops outs chunks b' Hne Hw IH].
+  - reflexivity.
+  - cbn [concat]. rewrite <- app_assoc, <- IH. symmetry. apply firstn_skipn.
+  - exact IH.
+Qed.
+
+Definition good_write (o : ev_out) : bool :=
+  match o with OWrote k => 0 <? k | OWriteIntr => true | _ => false end.
+
+Lemma wsteps_good h b ops outs chunks b' : wsteps h b ops outs chunks b' -> forallb good_write outs = true.
+Proof.
+  induction 1; cbn [forallb good_write]; [reflexivity| |assumption].
+  apply andb_true_iff. split; [lia|assumption].
+Qed.
+
+(* every buffer offered is a write to h of at most the original length; after a write that
+   accepted something, strictly shorter *)
+Definition write_to_le (h : bytes) (n : nat) (e : ev_op) : Prop :=
+  exists b0, e = EWrite h b0 /\ (length b0 <= n)%nat.
+
+Lemma wsteps_writes h b ops outs chunks b' : wsteps h b ops outs chunks b' ->
+  Forall (write_to_le h (length b)) (ops ++ [EWrite h b']).
+Proof.
+  induction 1 as [b|b k ops outs chunks b' Hne Hk Hw IH|b ops outs chunks b' Hne Hw IH].
+  - constructor; [|constructor]. exists b. split; [reflexivity|lia].
+  - cbn [app]. constructor; [exists b; split; [reflexivity|lia]|].
+    eapply Forall_impl; [|exact IH]. intros e [b0 [-> Hl]]. exists b0. split; [reflexivity|].
+    rewrite skipn_length in Hl. lia.
+  - cbn [app]. constructor; [exists b; split; [reflexivity|lia]|exact IH].
+Qed.
+
+Lemma write_end_seg h fuel s s' r ops outs b' :
+  write_end h fuel s s' r ops outs b' -> ext s s'.
+Proof. intros [? ? H|? ? ? H|? ? ? H|? ? ? H]; eexists; eexists; exact H. Qed.
+
+Lemma tracks_write_all fuel h buf : tracks (write_all fuel h buf).
+Proof.
+  intros s r s' H. destruct (write_all_run _ _ _ _ _ _ H) as [_ (ops & outs & chunks & b' & Hw & He)].
+  pose proof (wsteps_length _ _ _ _ _ _ Hw) as L.
+  destruct He as [Hr Hb Hs|o Hb Hbad Hs|Hb Hr Hd Hs|Hb Hr Hf Hs].
+  - exists outs, ops. split; [exact Hs|left; exact L].
+  - eexists; eexists. split; [exact Hs|left]. rewrite !app_length. cbn [length]. lia.
+  - exists outs, (ops ++ [EWrite h b']). split; [exact Hs|right]. subst r.
+    split; [intros a; discriminate|]. split; [exact Hd|]. rewrite app_length. cbn [length]. lia.
+  - exists outs, ops. split; [exact Hs|left; exact L].
+Qed.
+
+Lemma keeps_write_all_frame fuel h buf : keeps same_but_io (write_all fuel h buf).
+Proof. intros s r s' H. exact (proj1 (write_all_run _ _ _ _ _ _ H)). Qed.
+
+Theorem steps_write_all : forall fuel h buf s r s', write_all fuel h buf s = (r, s') -> steps s s'.
+Proof. intros fuel h buf. apply tracks_steps, tracks_write_all. Qed.
+
+(* fuel above the script length is never exhausted *)
+Lemma write_all_fuel fuel h buf s r s' :
+  write_all fuel h buf s = (r, s') -> (length (script s) < fuel)%nat -> r <> Err EOutOfFuel.
+Proof.
+  intros H Hf Hr. destruct (write_all_run _ _ _ _ _ _ H) as [_ (ops & outs & chunks & b' & Hw & He)].
+  pose proof (wsteps_length _ _ _ _ _ _ Hw) as L.
+  destruct He as [Hr' Hb Hs|o Hb Hbad Hs|Hb Hr' Hd Hs|Hb Hr' Hfu Hs]; subst r; try discriminate.
+  - destruct o as [ok|k| |e|bs| |e|]; cbn [write_bad] in Hbad; try discriminate; try contradiction.
+    destruct Hbad as [_ Hbad]. discriminate.
+  - destruct Hs as [Hs _]. rewrite Hs, app_length in Hf. lia.
+Qed.
+
+(* a successful write of a non-empty buffer consumed at least one answer *)
+Lemma write_all_ok_shrinks fuel h buf s s' :
+  write_all fuel h buf s = (Ok tt, s') -> buf <> [] -> (length (script s') < length (script s))%nat.
+Proof.
+  intros H Hne. destruct (write_all_run _ _ _ _ _ _ H) as [_ (ops & outs & chunks & b' & Hw & He)].
+  destruct He as [Hr' Hb Hs|o Hb Hbad Hs|Hb Hr' Hd Hs|Hb Hr' Hfu Hs]; try discriminate.
+  - subst b'. destruct Hs as [Hs _]. rewrite Hs, app_length.
+    inversion Hw; subst; cbn [length]; try lia. contradiction.
+  - destruct o as [ok|k| |e|bs| |e|]; cbn [write_bad] in Hbad; try discriminate; try contradiction.
+    destruct Hbad as [_ Hbad]. discriminate.
+Qed.
+
+(* ================================================================================== *)
+(* 4. read_exact: the exact shape of its runs                                         *)
+(* ================================================================================== *)
+
+(* `rsteps h n ops outs data n'`: asking for n bytes, the reads `ops` answered by `outs`
+   (non-empty data, or interrupted) delivered `data` and leave n' bytes to be read *)
+Inductive rsteps (h : bytes) : Z -> list ev_op -> list ev_out -> bytes -> Z -> Prop :=
+| RS_nil n : rsteps h n [] [] [] n
+| RS_data n bs ops outs data n' : 0 < n -> bs <> [] ->
+    rsteps h (n - ulen bs) ops outs data n' ->
+    rsteps h n (ERead h n :: ops) (OData bs :: outs) (bs ++ data) n'
+| RS_intr n ops outs data n' : 0 < n -> rsteps h n ops outs data n' ->
+    rsteps h n (ERead h n :: ops) (OReadIntr :: outs) data n'.
+
+Definition read_bad (o : ev_out) (r : res bytes) : Prop :=
+  match o with
+  | OData [] => r = Err (EIo IoUnexpectedEof)
+  | OData _ => False
+  | OReadIntr => False
+  | OReadFail e => r = Err (EIo e)
+  | _ => r = Err EOutOfScript
+  end.
+
+Inductive read_end (h : bytes) (fuel : nat) (s s' : st) (r : res bytes) (acc : bytes)
+          (ops : list ev_op) (outs : list ev_out) (data : bytes) (n' : Z) : Prop :=
+| RE_done : r = Ok (acc ++ data) -> n' <= 0 -> seg s s' outs ops -> read_end h fuel s s' r acc ops outs data n'
+| RE_bad o : 0 < n' -> read_bad o r -> seg s s' (outs ++ [o]) (ops ++ [ERead h n']) ->
+    read_end h fuel s s' r acc ops outs data n'
+| RE_dry : 0 < n' -> r = Err EOutOfScript -> script s' = [] -> seg s s' outs (ops ++ [ERead h n']) ->
+    read_end h fuel s s' r acc ops outs data n'
+| RE_fuel : 0 < n' -> r = Err EOutOfFuel -> fuel = length ops -> seg s s' outs ops ->
+    read_end h fuel s s' r acc ops outs data n'.
+
+Lemma read_end_intr h f s s1 s' r acc op ops outs data n' :
+  seg s s1 [OReadIntr] [op] -> read_end h f s1 s' r acc ops outs data n' ->
+  read_end h (S f) s s' r acc (op :: ops) (OReadIntr :: outs) data n'.
+Proof.
+  intros H1 [Hr Hb H2|o' Hb Hbad H2|Hb Hr Hs H2|Hb Hr Hf H2].
+  - apply RE_done; [exact Hr|exact Hb|]. eapply seg_cons; eassumption.
+  - eapply RE_bad; [exact Hb|exact Hbad|]. cbn [app]. eapply seg_cons; eassumption.
+  - apply RE_dry; [exact Hb|exact Hr|exact Hs|]. cbn [app]. eapply seg_cons; eassumption.
+  - apply RE_fuel; [exact Hb|exact Hr|cbn [length]; congruence|]. eapply seg_cons; eassumption.
+Qed.
+
+Lemma read_end_data h f s s1 s' r acc bs op ops outs data n' :
+  seg s s1 [OData bs] [op] -> read_end h f s1 s' r (acc ++ bs) ops outs data n' ->
+  read_end h (S f) s s' r acc (op :: ops) (OData bs :: outs) (bs ++ data) n'.
+Proof.
+  intros H1 [Hr Hb H2|o' Hb Hbad H2|Hb Hr Hs H2|Hb Hr Hf H2].
+  - apply RE_done; [rewrite app_assoc; exact Hr|exact Hb|]. eapply seg_cons; eassumption.
+  - eapply RE_bad; [exact Hb|exact Hbad|]. cbn [app]. eapply seg_cons; eassumption.
+  - apply RE_dry; [exact Hb|exact Hr|exact Hs|]. cbn [app]. eapply seg_cons; eassumption.
+  - apply RE_fuel; [exact Hb|exact Hr|cbn [length]; congruence|]. eapply seg_cons; eassumption.
+Qed.
+
+Lemma read_exact_run fuel h : forall n acc s r s', read_exact fuel h n acc s = (r, s') ->
+  same_but_io s s' /\
+  exists ops outs data n', rsteps h n ops outs data n' /\ read_end h fuel s s' r acc ops outs data n'.
+Proof.
+  induction fuel as [|f IH]; intros n acc s r s' H.
+  - cbn [read_exact] in H. destruct (n <=? 0) eqn:En; inversion H; subst.
+    + split; [apply preorder_same_but_io|]. exists [], [], [], n. split; [constructor|].
+      apply RE_done; [rewrite app_nil_r; reflexivity|lia|apply seg_refl].
+    + split; [apply preorder_same_but_io|]. exists [], [], [], n. split; [constructor|].
+      apply RE_fuel; [lia|reflexivity|reflexivity|apply seg_refl].
+  - cbn [read_exact] in H. destruct (n <=? 0) eqn:En.
+    + inversion H; subst. split; [apply preorder_same_but_io|]. exists [], [], [], n. split; [constructor|].
+      apply RE_done; [rewrite app_nil_r; reflexivity|lia|apply seg_refl].
+    + assert (Hn : 0 < n) by lia.
+      unfold mbind at 1 in H. unfold io in H. destruct (script s) as [|o rest] eqn:E.
+      * inversion H; subst. split; [apply same_but_io_st_with|]. exists [], [], [], n. split; [constructor|].
+        apply RE_dry; [exact Hn|reflexivity|reflexivity|]. split; [exact E|reflexivity].
+      * pose proof (seg_io_one s o rest (ERead h n) E) as Hseg.
+        set (s1 := st_with s rest (ERead h n :: trace s)) in *.
+        assert (Hbad : forall r0, read_bad o r0 -> (r0, s1) = (r, s') ->
+                  same_but_io s s' /\ exists ops outs data n',
+                    rsteps h n ops outs data n' /\ read_end h (S f) s s' r acc ops outs data n').
+        { intros r0 Hb Hq. inversion Hq; subst. split; [apply same_but_io_st_with|].
+          exists [], [], [], n. split; [constructor|]. eapply RE_bad; [exact Hn|exact Hb|exact Hseg]. }
+        destruct o as [ok|k| |e|bs| |e|].
+        -- apply (Hbad (Err EOutOfScript)); [exact eq_refl|exact H].
+        -- apply (Hbad (Err EOutOfScript)); [exact eq_refl|exact H].
+        -- apply (Hbad (Err EOutOfScript)); [exact eq_refl|exact H].
+        -- apply (Hbad (Err EOutOfScript)); [exact eq_refl|exact H].
+        -- destruct bs as [|b0 bs].
+           ++ apply (Hbad (Err (EIo IoUnexpectedEof))); [exact eq_refl|exact H].
+           ++ destruct (IH _ _ _ _ _ H) as [Hf (ops & outs & data & n' & Hw & He)].
+              split; [eapply (proj2 preorder_same_but_io); [apply same_but_io_st_with|exact Hf]|].
+              exists (ERead h n :: ops), (OData (b0 :: bs) :: outs), ((b0 :: bs) ++ data), n'.
+              split; [apply RS_data; [exact Hn|discriminate|exact Hw]|]. eapply read_end_data; eassumption.
+        -- destruct (IH _ _ _ _ _ H) as [Hf (ops & outs & data & n' & Hw & He)].
+           split; [eapply (proj2 preorder_same_but_io); [apply same_but_io_st_with|exact Hf]|].
+           exists (ERead h n :: ops), (OReadIntr :: outs), data, n'.
+           split; [apply RS_intr; [exact Hn|exact Hw]|]. eapply read_end_intr; eassumption.
+        -- apply (Hbad (Err (EIo e))); [exact eq_refl|exact H].
+        -- apply (Hbad (Err EOutOfScript)); [exact eq_refl|exact H].
+Qed.
+
+Lemma rsteps_length h n ops outs data n' : rsteps h n ops outs data n' -> length ops = length outs.
+Proof. induction 1; cbn [length]; congruence. Qed.
+
+(* the bytes carried by the answers *)
+Definition payloads (outs : list ev_out) : bytes :=
+  flat_map (fun o => match o with OData bs => bs | _ => [] end) outs.
+
+Lemma payloads_app a b : payloads (a ++ b) = payloads a ++ payloads b.
+Proof. apply flat_map_app. Qed.
+
+Lemma rsteps_payloads h n ops outs data n' : rsteps h n ops outs data n' -> payloads outs = data.
+Proof. induction 1; cbn [payloads flat_map]; [reflexivity|fold (payloads outs); congruence|exact IHrsteps]. Qed.
+
+Lemma rsteps_need h n ops outs data n' : rsteps h n ops outs data n' -> n' = n - ulen data.
+Proof.
+  induction 1; unfold ulen in *; [cbn [length]; lia| |exact IHrsteps].
+  rewrite app_length. lia.
+Qed.
+
+Definition is_read (h : bytes) (e : ev_op) : Prop := exists n, e = ERead h n /\ 0 < n.
+Definition good_read (o : ev_out) : bool :=
+  match o with OData [] => false | OData _ => true | OReadIntr => true | _ => false end.
+
+Lemma rsteps_reads h n ops outs data n' : rsteps h n ops outs data n' ->
+  Forall (is_read h) ops /\ forallb good_read outs = true.
+Proof.
+  induction 1 as [n|n bs ops outs data n' Hn Hbs Hr [IH1 IH2]|n ops outs data n' Hn Hr [IH1 IH2]].
+  - split; [constructor|reflexivity].
+  - split; [constructor; [exists n; split; [reflexivity|exact Hn]|exact IH1]|].
+    cbn [forallb good_read]. destruct bs; [contradiction|exact IH2].
+  - split; [constructor; [exists n; split; [reflexivity|exact Hn]|exact IH1]|exact IH2].
+Qed.
+
+(* the guarantee of the byte stream (and of the harness): a read never returns more than asked *)
+Definition read_ok (p : ev_op * ev_out) : Prop :=
+  match p with (ERead _ n, OData bs) => ulen bs <= n | _ => True end.
+Definition reads_bounded (s s' : st) : Prop := Forall read_ok (combine (performed s s') (consumed s s')).
+
+Lemma rsteps_bounded h n ops outs data n' : rsteps h n ops outs data n' ->
+  Forall read_ok (combine ops outs) -> 0 <= n -> 0 <= n'.
+Proof.
+  induction 1 as [n|n bs ops outs data n' Hn Hbs Hr IH|n ops outs data n' Hn Hr IH]; intros Hb H0.
+  - exact H0.
+  - cbn [combine] in Hb. inversion Hb as [|x l Hx Hl]; subst. cbn [read_ok] in Hx. apply IH; [exact Hl|lia].
+  - cbn [combine] in Hb. inversion Hb as [|x l Hx Hl]; subst. apply IH; [exact Hl|lia].
+Qed.
+
+Lemma combine_app {A B} (a1 a2 : list A) (b1 b2 : list B) :
+  length a1 = length b1 -> combine (a1 ++ a2) (b1 ++ b2) = combine a1 b1 ++ combine a2 b2.
+Proof.
+  revert b1. induction a1 as [|x a1 IH]; intros [|y b1] H; cbn [length] in H; try discriminate; [reflexivity|].
+  cbn [app combine]. rewrite IH by lia. reflexivity.
+Qed.
+
+Lemma read_end_ext h fuel s s' r acc ops outs data n' :
+  read_end h fuel s s' r acc ops outs data n' -> ext s s'.
+Proof. intros [? ? H|? ? ? H|? ? ? H|? ? ? H]; eexists; eexists; exact H. Qed.
+
+Lemma tracks_read_exact fuel h n acc : tracks (read_exact fuel h n acc).
+Proof.
+  intros s r s' H. destruct (read_exact_run _ _ _ _ _ _ _ H) as [_ (ops & outs & data & n' & Hw & He)].
+  pose proof (rsteps_length _ _ _ _ _ _ Hw) as L.
+  destruct He as [Hr Hb Hs|o Hb Hbad Hs|Hb Hr Hd Hs|Hb Hr Hf Hs].
+  - exists outs, ops. split; [exact Hs|left; exact L].
+  - eexists; eexists. split; [exact Hs|left]. rewrite !app_length. cbn [length]. lia.
+  - exists outs, (ops ++ [ERead h n']). split; [exact Hs|right]. subst r.
+    split; [intros a; discriminate|]. split; [exact Hd|]. rewrite app_length. cbn [length]. lia.
+  - exists outs, ops. split; [exact Hs|left; exact L].
+Qed.
+
+Lemma keeps_read_exact_frame fuel h n acc : keeps same_but_io (read_exact fuel h n acc).
+Proof. intros s r s' H. exact (proj1 (read_exact_run _ _ _ _ _ _ _ H)). Qed.
+
+Theorem steps_read_exact : forall fuel h n acc s r s', read_exact fuel h n acc s = (r, s') -> steps s s'.
+Proof. intros fuel h n acc. apply tracks_steps, tracks_read_exact. Qed.
+
+Lemma read_bad_not_fuel o r : read_bad o r -> r <> Err EOutOfFuel.
+Proof.
+  intros Hbad Hr. subst r.
+  destruct o as [ok|k| |e|[|b0 bs]| |e|]; cbn [read_bad] in Hbad; try discriminate; try contradiction.
+Qed.
+Lemma read_bad_not_ok o r a : read_bad o r -> r <> Ok a.
+Proof.
+  intros Hbad Hr. subst r.
+  destruct o as [ok|k| |e|[|b0 bs]| |e|]; cbn [read_bad] in Hbad; try discriminate; try contradiction.
+Qed.
+Lemma read_bad_not_panic o r w : read_bad o r -> r <> Panic w.
+Proof.
+  intros Hbad Hr. subst r.
+  destruct o as [ok|k| |e|[|b0 bs]| |e|]; cbn [read_bad] in Hbad; try discriminate; try contradiction.
+Qed.
+Lemma write_bad_not_fuel o r : write_bad o r -> r <> Err EOutOfFuel.
+Proof.
+  intros Hbad Hr. subst r.
+  destruct o as [ok|k| |e|bs| |e|]; cbn [write_bad] in Hbad; try discriminate; try contradiction.
+  destruct Hbad as [_ Hbad]. discriminate.
+Qed.
+Lemma write_bad_not_ok o r : write_bad o r -> r <> Ok tt.
+Proof.
+  intros Hbad Hr. subst r.
+  destruct o as [ok|k| |e|bs| |e|]; cbn [write_bad] in Hbad; try discriminate; try contradiction.
+  destruct Hbad as [_ Hbad]. discriminate.
+Qed.
+Lemma write_bad_not_panic o r w : write_bad o r -> r <> Panic w.
+Proof.
+  intros Hbad Hr. subst r.
+  destruct o as [ok|k| |e|bs| |e|]; cbn [write_bad] in Hbad; try discriminate; try contradiction.
+  destruct Hbad as [_ Hbad]. discriminate.
+Qed.
+
+Lemma read_exact_fuel fuel h n acc s r s' :
+  read_exact fuel h n acc s = (r, s') -> (length (script s) < fuel)%nat -> r <> Err EOutOfFuel.
+Proof.
+  intros H Hf Hr. destruct (read_exact_run _ _ _ _ _ _ _ H) as [_ (ops & outs & data & n' & Hw & He)].
+  pose proof (rsteps_length _ _ _ _ _ _ Hw) as L.
+  destruct He as [Hr' Hb Hs|o Hb Hbad Hs|Hb Hr' Hd Hs|Hb Hr' Hfu Hs].
+  - subst r. discriminate.
+  - exact (read_bad_not_fuel _ _ Hbad Hr).
+  - subst r. discriminate.
+  - destruct Hs as [Hs _]. rewrite Hs, app_length in Hf. lia.
+Qed.
+
+(* the successful case, with everything one wants to know *)
+Lemma read_exact_ok fuel h n acc s bs s' :
+  read_exact fuel h n acc s = (Ok bs, s') ->
+  exists ops outs data n', rsteps h n ops outs data n' /\ n' <= 0 /\ seg s s' outs ops /\ bs = acc ++ data.
+Proof.
+  intros H. destruct (read_exact_run _ _ _ _ _ _ _ H) as [_ (ops & outs & data & n' & Hw & He)].
+  destruct He as [Hr' Hb Hs|o Hb Hbad Hs|Hb Hr' Hd Hs|Hb Hr' Hfu Hs]; try discriminate.
+  - inversion Hr'; subst. exists ops, outs, data, n'. repeat split; try assumption; apply Hs.
+  - exfalso. exact (read_bad_not_ok _ _ _ Hbad eq_refl).
+Qed.
+
+Lemma read_exact_ok_shrinks fuel h n acc s bs s' :
+  read_exact fuel h n acc s = (Ok bs, s') -> 0 < n -> (length (script s') < length (script s))%nat.
+Proof.
+  intros H Hn. destruct (read_exact_ok _ _ _ _ _ _ _ H) as (ops & outs & data & n' & Hw & Hn' & [Hs _] & _).
+  rewrite Hs, app_length. inversion Hw; subst; cbn [length]; lia.
+Qed.
+
+(* ================================================================================== *)
+(* 5. events of a kind                                                                *)
+(* ================================================================================== *)
+
+Definition ops_in (P : ev_op -> Prop) (s s' : st) : Prop := ext s s' /\ Forall P (performed s s').
+
+Lemma preorder_ops_in P : preorder (ops_in P).
+Proof.
+  split.
+  - intros s. split; [apply ext_refl|]. rewrite performed_refl. constructor.
+  - intros s s1 s2 [E1 F1] [E2 F2]. split; [eapply ext_trans; eassumption|].
+    rewrite (performed_app _ _ _ E1 E2). apply Forall_app. split; assumption.
+Qed.
+
+Lemma io_seg op s r s' : io op s = (r, s') -> exists outs, seg s s' outs [op].
+Proof.
+  unfold io. destruct (script s) as [|o rest] eqn:E; intros H; inversion H; subst.
+  - exists []. split; [exact E|reflexivity].
+  - exists [o]. split; [exact E|reflexivity].
+Qed.
+
+Lemma keeps_io_ops (P : ev_op -> Prop) op : P op -> keeps (ops_in P) (io op).
+Proof.
+  intros HP s r s' H. destruct (io_seg _ _ _ _ H) as [outs Hs]. split; [exists outs, [op]; exact Hs|].
+  rewrite (seg_performed _ _ _ _ Hs). constructor; [exact HP|constructor].
+Qed.
+
+Lemma keeps_set_client (R : st -> st -> Prop) c : (forall s, R s (snd (set_client c s))) -> keeps R (set_client c).
+Proof. intros HR s r s' H. inversion H; subst. apply (HR s). Qed.
+
+Lemma ops_in_set_client P c s : ops_in P s (snd (set_client c s)).
+Proof.
+  assert (Hs : seg s (snd (set_client c s)) [] []) by (split; reflexivity).
+  split; [exists [], []; exact Hs|]. rewrite (seg_performed _ _ _ _ Hs). constructor.
+Qed.
+
+Definition on_host (h : bytes) (e : ev_op) : Prop :=
+  match e with EConnect h' | EWrite h' _ | ERead h' _ | EShutdown h' => h' = h end.
+Definition not_write (e : ev_op) : Prop := match e with EWrite _ _ => False | _ => True end.
+
+Lemma ops_in_weaken (P Q : ev_op -> Prop) s s' : (forall e, P e -> Q e) -> ops_in P s s' -> ops_in Q s s'.
+Proof. intros HPQ [E F]. split; [exact E|]. eapply Forall_impl; [exact HPQ|exact F]. Qed.
+
+(* ---- write_all / read_exact as event producers --------------------------------------- *)
+Lemma write_all_ops fuel h buf s r s' : write_all fuel h buf s = (r, s') ->
+  ops_in (write_to_le h (length buf)) s s'.
+Proof.
+  intros H. destruct (write_all_run _ _ _ _ _ _ H) as [_ (ops & outs & chunks & b' & Hw & He)].
+  pose proof (wsteps_writes _ _ _ _ _ _ Hw) as Hall.
+  assert (Hops : Forall (write_to_le h (length buf)) ops) by (apply Forall_app in Hall; apply Hall).
+  split; [eapply write_end_seg; exact He|].
+  destruct He as [Hr Hb Hs|o Hb Hbad Hs|Hb Hr Hd Hs|Hb Hr Hf Hs]; rewrite (seg_performed _ _ _ _ Hs); assumption.
+Qed.
+
+Lemma read_exact_ops fuel h n acc s r s' : read_exact fuel h n acc s = (r, s') -> ops_in (is_read h) s s'.
+Proof.
+  intros H. destruct (read_exact_run _ _ _ _ _ _ _ H) as [_ (ops & outs & data & n' & Hw & He)].
+  destruct (rsteps_reads _ _ _ _ _ _ Hw) as [Hops _].
+  split; [eapply read_end_ext; exact He|].
+  destruct He as [Hr Hb Hs|o Hb Hbad Hs|Hb Hr Hd Hs|Hb Hr Hf Hs]; rewrite (seg_performed _ _ _ _ Hs);
+    try assumption; (apply Forall_app; split; [exact Hops|constructor; [|constructor]]);
+    exists n'; (split; [reflexivity|exact Hb]).
+Qed.
